@@ -476,6 +476,12 @@ pub(super) fn translate_literal(l: Literal, ctx: &Context) -> Result<sql_ast::Ex
                     )))
                 }
             };
+            if !ctx.dialect.has_interval_literal() {
+                return Err(Error::new_simple(format!(
+                    "interval literals are not supported for dialect {}",
+                    ctx.dialect_enum
+                )));
+            }
             match ctx.dialect.interval_quoting_style(&sql_parser_datetime) {
                 IntervalQuotingStyle::ValueAndUnitQuoted => {
                     //postgres requires quotes around number and unit together eg '3 WEEK'
